@@ -123,6 +123,25 @@ class C19(Check):
             k = rng.choice(sorted(closure))
             name = rng.choice(["assert_false", "bad_width", "undefined_type", "no_seal", "const_range", "garbage", "union_one"])
             scn["pre"].append({"op": "write", "path": uni.file_of(k), "text": F.TEXT_FAULTS[name], "kind": "closure:" + name})
+        if rng.random() < 0.3 and closure and out_keys:
+            # closure definitions *mention* out-of-closure definitions - in a comment or a string, with name and version - without
+            # referring to them: a mention is not a reference, the mentioned file stays a bystander
+            for _ in range(rng.randint(1, 2)):
+                k = rng.choice(sorted(closure))
+                x = uni.defs[rng.choice(out_keys)]
+                full = "%s.%d.%d" % (x["name"], x["ver"][0], x["ver"][1])
+                short = "%s.%d.%d" % (x["name"].split(".")[-1], x["ver"][0], x["ver"][1])
+                sec0 = uni.defs[k]["secs"][0]
+                how = rng.randrange(3)
+                if how == 0 and sec0.get("hdr") is None:
+                    sec0["hdr"] = "Supersedes %s (see also %s)" % (full, short)
+                elif how == 1:
+                    sec0["items"].append(["raw", "@print '%s'" % rng.choice([full, short]), []])
+                else:
+                    sec0["items"].append(["raw", "@assert true  # was: %s field_x; cf. %s" % (full, short), []])
+                if case_target is None:
+                    case_target = T.def_key(x)
+            scn["mentions"] = True
         for batch in range(2):
             edits = []
             n = rng.randint(1, 3)
